@@ -19,6 +19,9 @@ for i in (1, 2):
     mc = re.search(r"Copy into:\s*([A-Za-z0-9_/]+?)/?\s", head)
     if mc:
         pkg = mc.group(1).rstrip("/")
+    md = re.search(r"package directory:?\s+`?([A-Za-z0-9_/]+[A-Za-z0-9_])", head)
+    if md:
+        pkg = md.group(1)
     if pkg is None or pkg == "":
         m = re.search(r"(?:Copy (?:in)?to[^:]*:\s*)([A-Za-z0-9_/]+)/", head); pkg = m.group(1)
     mod = "gcetcbendorsement" if pkg.startswith("gcetcbendorsement") else ""
